@@ -38,6 +38,10 @@ class GotranPythonCodePrinter(PythonCodePrinter):
     def _print_im(self, expr):
         return self._print(sympy.S.Zero)
 
+    def _print_arg(self, expr):
+        # The argument (phase) of a real number is 0 or pi
+        return f"numpy.angle({self._print(expr.args[0])})"
+
     def _hprint_Pow(self, expr, rational=False, sqrt="numpy.sqrt"):
         value = super()._hprint_Pow(expr, rational, sqrt)
         if (expr.exp == -sympy.S.Half or expr.exp == sympy.S.NegativeOne) and not rational:
